@@ -157,7 +157,15 @@ pub fn draw_alteration(f: &mut Rng, image_len: usize) -> Vec<Patch> {
     let pages = (image_len / 1024).max(1) as u64;
     let page = f.below(pages);
     let base = page * 1024;
-    match f.below(8) {
+    match f.below(9) {
+        8 => {
+            // a whole page (the last one half of the time, or the last k) overwritten with zeros
+            // or 0xFF bytes, checksum included: what a hole or an erased block looks like
+            let fill = if f.chance(2, 3) { 0u8 } else { 0xFF };
+            let k = if f.chance(1, 3) { 1 + f.below(pages.min(3)) } else { 1 };
+            let first = if f.chance(1, 2) { pages - k } else { f.below(pages - k + 1) };
+            (0..k).map(|i| Patch::Set { offset: (first + i) * 1024, bytes: vec![fill; 1024] }).collect()
+        }
         0 => vec![Patch::Xor { offset: base + f.below(1024), mask: 1 << f.below(8) }],
         1 => {
             // two or three bits within one page
@@ -427,7 +435,7 @@ impl Prop for C07 {
     fn meta(&self) -> Meta {
         Meta {
             level: "fault_enumeration",
-            rule: "pristine file (crate writer or refcodec producer, 2-40 pages, several sections) -> alteration -> reader history. Run indices 0..4 (0..24 in thorough) enumerate EVERY single-bit flip of every page of a small file, each judged with validate_crc, raw_xml, open, xml, listings, raw + simple iteration of every cloud and every blob. Other indices sample alterations (1-3 bit flips in a page, bursts <= 32 bits, 1-64 byte overwrites, checksum-only damage, zeroed bytes, header bytes of page 0, two pages; every eighth run a near-miss checksum: the right CRC-32C in little-endian order, its complement, or the IEEE CRC-32 of the - possibly altered - payload) applied before open, BETWEEN two operations of a 1-8 operation history (a page goes bad while it may be the cached page), or at a drawn device-operation instant INSIDE whatever call is in progress (SimDisk's Mutate fault). Every 64th run is a file beyond 1 MiB (one payload of 1.1..1.6 MiB) with one altered page more than 1030 pages into it, read in one sequential run and by validate_crc. Iterators are polled three more times after their first error; whatever they hand out then must be what the unaltered file gives at that position. Every sixteenth run instead builds a paged byte string with a page size other than 1024 (64..70001, all residues modulo 8; checksums by the independent CRC) for the static validate_crc / raw_xml, with or without one flipped bit. Oracle: validate_crc is Ok on the pristine file and Err on every altered one (altered = independent bitwise CRC-32C of a page payload differs from its stored big-endian checksum; an alteration that is not detectable this way, a 2^-32 event, is counted and skipped); every operation is Err or equals the pristine result, also after earlier failures on the same reader; pages written by the library carry the independent CRC-32C; the whole batch is executed by a second harness build with the crc32c cargo feature and the per-run digests (file bytes, results) must be identical. Distinct = alteration shape x history; every enumerated alteration is non-trivial".into(),
+            rule: "pristine file (crate writer or refcodec producer, 2-40 pages, several sections) -> alteration -> reader history. Run indices 0..4 (0..24 in thorough) enumerate EVERY single-bit flip of every page of a small file, each judged with validate_crc, raw_xml, open, xml, listings, raw + simple iteration of every cloud and every blob. Other indices sample alterations (1-3 bit flips in a page, bursts <= 32 bits, 1-64 byte overwrites, checksum-only damage, zeroed bytes, header bytes of page 0, two pages, whole pages overwritten with zeros or 0xFF; every eighth run a near-miss checksum: the right CRC-32C in little-endian order, its complement, or the IEEE CRC-32 of the - possibly altered - payload) applied before open, BETWEEN two operations of a 1-8 operation history (a page goes bad while it may be the cached page), or at a drawn device-operation instant INSIDE whatever call is in progress (SimDisk's Mutate fault). Every 64th run is a file beyond 1 MiB (one payload of 1.1..1.6 MiB) with one altered page more than 1030 pages into it, read in one sequential run and by validate_crc. Iterators are polled three more times after their first error; whatever they hand out then must be what the unaltered file gives at that position. Every sixteenth run instead builds a paged byte string with a page size other than 1024 (64..70001, all residues modulo 8; checksums by the independent CRC) for the static validate_crc / raw_xml, with or without one flipped bit. Oracle: validate_crc is Ok on the pristine file and Err on every altered one (altered = independent bitwise CRC-32C of a page payload differs from its stored big-endian checksum; an alteration that is not detectable this way, a 2^-32 event, is counted and skipped); every operation is Err or equals the pristine result, also after earlier failures on the same reader; pages written by the library carry the independent CRC-32C; the whole batch is executed by a second harness build with the crc32c cargo feature and the per-run digests (file bytes, results) must be identical. Distinct = alteration shape x history; every enumerated alteration is non-trivial".into(),
             assumptions: vec![
                 "E57Reader::header() and the static raw_xml on a damaged page 0 are outside the property's list of read operations".into(),
                 "misplaced pages that carry their own valid checksum are not 'altered pages' in the sense of this property".into(),
